@@ -323,6 +323,10 @@ class PeriodicMessageTask:
         """
         self.bus = bus
         self.period = period
+        if isinstance(data, bytearray):
+            # python-can keeps a bytearray as is; take a copy so that later
+            # in-place changes by the caller are seen as changes in update()
+            data = bytes(data)
         self.msg = can.Message(is_extended_id=can_id > 0x7FF,
                                arbitration_id=can_id,
                                data=data, is_remote_frame=remote)
